@@ -454,3 +454,12 @@ PROPS["C18"]["level_text"] = ("Partial proof: plan shape (enabled modes only, po
     " (segment theorem, plans within the round-trip side condition) are theorems about the models; that every planned non-ASCII mode with at least one character is latched, in plan order, and that the predicted size is met"
     " is exploration with oracle plus planner/encoder model correspondence.")
 PROPS["C18"]["unproved"] = ["latch sequence = planned non-ASCII modes in order (proved: membership, latches_planned); planner_predicts_size"]
+
+# ---- C10: the oracle is proved sound (Props/C10.lean) ----
+PROPS["C10"]["lean"] = ["DM.Props.C10"]
+PROPS["C10"]["explanation"] += (" Theorem search_sound (DM/Props/C10.lean): whenever the search answers, its script's stream has exactly the reported capacity, that capacity is a member of the"
+    " supplied list, and the independent reference decoder maps the stream back to the whole message (FNC1 flag as requested) - a report 'a smaller symbol suffices' always carries a valid"
+    " encoding in that symbol; completeness of the search is not claimed.")
+PROPS["C10"]["level_text"] = ("Exploration with a witness-producing oracle whose soundness is a theorem (every report carries a stream of a listed smaller capacity that the reference decoder maps to the input);"
+    " planner optimality itself is not proved and does not hold (DESIGN.md, C10 known findings).")
+PROPS["C10"]["unproved"] = ["planner_optimal: no listed symbol of smaller capacity admits a conformant encoding (false for the pinned planner: see the known findings K-A, K-B*); completeness of the search"]
